@@ -256,15 +256,19 @@ def ob_override_static():
         class Cache(dict):
             def put(self, k, v): self[k] = v
         interp.coredata.deps = {MachineChoice.HOST: Cache()}
-        bld = types.SimpleNamespace(dependency_overrides={MachineChoice.HOST: {}, MachineChoice.BUILD: {}})
+        # the override tables as build.Build makes them: one per machine in a cross build, ONE shared table natively (PerMachineDefaultable.default)
+        from mesonbuild.mesonlib import PerMachineDefaultable
+        cross = choose(2, 'cross build') == 1
+        onative = cross and choose(2, 'the override is for the build machine (native: true)') == 1
+        bld = types.SimpleNamespace(dependency_overrides=PerMachineDefaultable.default(cross, {}, {}))
         interp.build = bld
         interp.apply_machine_map_to_kwargs = lambda kwargs: None          # a native build: the machine map is the identity
         mm = object.__new__(MesonMain)
         mm.interpreter = interp; mm.build = bld; mm.subproject = ''; mm.current_node = interp.current_node
         odep = mkdep('override', True, '1'); odep2 = mkdep('override2', True, '1')
         try:
-            mm.override_dependency_method(['foo', odep], {'static': ostatic, 'native': False})
-            if second: mm.override_dependency_method(['foo', odep2], {'static': (not ostatic), 'native': False})
+            mm.override_dependency_method(['foo', odep], {'static': ostatic, 'native': onative})
+            if second: mm.override_dependency_method(['foo', odep2], {'static': (not ostatic), 'native': onative})
         except Exception as e:
             if type(e).__name__ in ('InterpreterException', 'MesonException', 'InvalidArguments'):
                 check(False, 'overriding the shared and the static flavour separately is accepted'); return
@@ -285,7 +289,8 @@ def ob_override_static():
         elif ostatic is None: want = {'override'} if (eff is None or eff == lstatic) else {'system'}
         elif lstatic == ostatic: want = {'override'}
         else: want = {'override2'} if second else {'system'}
-        check(res in want, 'a lookup sees the override registered for its static flavour (and no other)')
+        if onative: want = {'system'}          # cross build: an override for the build machine does not answer a host lookup
+        check(res in want, 'a lookup sees the override registered for its machine and static flavour (and no other)')
         cover('done')
     return h
 
